@@ -39,6 +39,7 @@ type flowParams struct {
 	Procs    []procParam `json:"procs"`
 	GateDestOpen bool    `json:"gate_dest_open"` // destination Open calls are pending events with answers {ok, err}
 	NoMatch      []int   `json:"no_match"`       // records that do not match the processors' condition (Cond: "match")
+	GateDLQOpen  bool    `json:"gate_dlq_open"`  // the DLQ connector's Open is a pending event (an unresponsive DLQ during start-up)
 }
 
 // procParam describes one scripted processor of the scenario.
@@ -69,6 +70,9 @@ func (p flowParams) name() string {
 	}
 	if p.GateDestOpen {
 		n += "/destopen"
+	}
+	if p.GateDLQOpen {
+		n += "/dlqopen"
 	}
 	if p.Bundle > 0 {
 		n += fmt.Sprintf("/bundle%d", p.Bundle)
@@ -108,7 +112,7 @@ func (p flowParams) topology() stack.Topology {
 	if len(dlqMenu) == 0 {
 		dlqMenu = []string{"ok"}
 	}
-	t.DLQ = &fakes.DestScript{Name: "dlq", AckMenu: dlqMenu}
+	t.DLQ = &fakes.DestScript{Name: "dlq", AckMenu: dlqMenu, GateOpen: p.GateDLQOpen, Faults: p.GateDLQOpen}
 	t.DLQWindow, t.DLQThreshold = p.Window, p.Thresh
 	for _, pr := range p.Procs {
 		cond := pr.Cond
